@@ -70,7 +70,16 @@ func runSolver(ctx context.Context, sp solverSpec, file string, timeoutMs int) (
 	_ = cmd.Run()
 	ms := time.Since(start).Milliseconds()
 	txt := out.String()
-	first := strings.TrimSpace(strings.SplitN(txt, "\n", 2)[0])
+	// the verdict is the first line that is not a solver warning (z3 prints pattern warnings before it)
+	first := ""
+	for _, l := range strings.Split(txt, "\n") {
+		l = strings.TrimSpace(l)
+		if l == "" || strings.HasPrefix(l, "WARNING") {
+			continue
+		}
+		first = l
+		break
+	}
 	return first, txt, ms
 }
 
